@@ -466,6 +466,8 @@ func (pConn *PFCPConn) handleSessionDeletionRequest(msg message.Message) (messag
 		return sendError(ErrOperationFailedWithReason("session IP dealloc", err.Error()))
 	}
 
+	releaseAllocatedFTEIDs(upf.fteidGenerator, &session)
+
 	/* delete sessionRecord */
 	pConn.RemoveSession(session)
 
@@ -563,6 +565,8 @@ func (pConn *PFCPConn) handleSessionReportResponse(msg message.Message) error {
 		if err := releaseAllocatedIPs(upf.ippool, &sessItem); err != nil {
 			logger.PfcpLog.Errorf("failed to release UE IP of session %v: %v", seid, err)
 		}
+
+		releaseAllocatedFTEIDs(upf.fteidGenerator, &sessItem)
 
 		pConn.RemoveSession(sessItem)
 
